@@ -1,5 +1,5 @@
 \* exhaustive check, fine granularity: the environment and the other controller interleave between the calls
-CONSTANTS Pods = {"p1", "p2"}  Tol = {"p2"}
+CONSTANTS Pods = {"p1", "p2"}  Tol = {"p2"}  Late = {"p2"}
   Starts = {"registered", "unpersisted"}
   VaOwners = {"p1"}  TGPs <- BoolT  Instants <- BoolF
   MaxFaults = 1  MaxRestarts = 0  MaxLen = 1000  MaxSpont = 99
